@@ -1,5 +1,6 @@
 #![allow(dead_code)]
 mod absmap;
+mod decode;
 mod gradual;
 mod scoregen;
 mod settings;
@@ -15,6 +16,16 @@ fn main() {
     let code = match args[1].as_str() {
         "gradual-replay" => gradual::main(rest),
         "gradual-record" => gradual::record_main(rest),
+        "decode-replay" => decode::main(rest),
+        "decode-record" => decode::record_main(rest),
+        "decode-dump" => {
+            let bytes = std::fs::read(&rest[0]).expect("read");
+            match rosu_pp::Beatmap::from_bytes(&bytes) {
+                Ok(m) => println!("{:?}\n{:#?}", decode::project(&m), m.hit_objects),
+                Err(e) => println!("ERR {e}"),
+            }
+            0
+        }
         "scoregen-replay" => scoregen::main(rest),
         "concretize" => {
             // concretize <mode> <profile> <objs-json>
